@@ -73,17 +73,23 @@ pub fn machines(opts: &Opts) -> Vec<MCfg> {
             out.push(m);
         }
         Tier::Thorough => {
-            let mut m = base_cfg("N3P2C1D1/core", same_shape_leaves(var), core.clone(), 6);
-            m.bounds = b(3, 2, 1, 1, 7);
+            let mut m = base_cfg("N3P2C1/core", same_shape_leaves(var), core.clone(), 6);
+            m.bounds = b(3, 2, 1, 0, 6);
             m.seeds = vec![0];
             m.check_fresh_diff = true;
             out.push(m);
-            let mut m = base_cfg("N2P3C2D2/core", same_shape_leaves(var), core.clone(), 5);
-            m.bounds = b(2, 3, 2, 2, 9);
+            let mut m = base_cfg("N2P3C2D1/core", same_shape_leaves(var), core.clone(), 5);
+            m.bounds = b(2, 3, 2, 1, 8);
+            m.seeds = vec![0];
             m.check_fresh_diff = true;
             out.push(m);
-            let mut m = base_cfg("N3P2C1/zero-adjoints", same_shape_leaves(var), zero.clone(), 6);
-            m.bounds = b(3, 2, 1, 0, 6);
+            let mut m = base_cfg("N2P2C1D2/core-seeds", same_shape_leaves(var), core.clone(), 5);
+            m.bounds = b(2, 2, 1, 2, 7);
+            m.seeds = vec![0, 1, 2];
+            m.check_fresh_diff = true;
+            out.push(m);
+            let mut m = base_cfg("N3P2/zero-adjoints", same_shape_leaves(var), zero.clone(), 6);
+            m.bounds = b(3, 2, 0, 0, 5);
             m.seeds = vec![0, 2];
             m.check_fresh_diff = true;
             out.push(m);
